@@ -12,6 +12,7 @@ import (
 	"sort"
 	"strconv"
 	"strings"
+	"sync"
 	"syscall"
 	"time"
 
@@ -46,6 +47,8 @@ type scenario struct {
 	Post    int    `json:"post_restart_msgs"` // messages published only after the restart (the last Post of msgs)
 	Restart string `json:"restart"`           // "", "term", "kill": after the stop the tool is started again over what is there
 	Foreign int    `json:"foreign_ms"`        // >0: at this time somebody else creates, in the output dir, the names of the work files
+	Probe   bool   `json:"foreign_on_probe"`  // whenever the tool looks whether a name in the output dir is free (stat / access = ENOENT) and is
+	//                                           held there by strace, somebody else creates exactly that name before it goes on
 	Seed    int64  `json:"seed"`
 }
 
@@ -137,6 +140,8 @@ func findTool(bin, out string) int {
 
 // hardLimit: whatever happens to the harness, no traced tool outlives this (timeout(1) kills its process group)
 var hardLimit = []string{"-s", "KILL", "1500", "strace"}
+
+const probeSet = "newfstatat,lstat,stat,statx,access,faccessat,faccessat2"
 
 const straceSet = "openat,open,creat,write,pwrite64,writev,pwritev,pwritev2,fsync,fdatasync,close,link,linkat,unlink,unlinkat," +
 	"rename,renameat,renameat2,truncate,ftruncate,sendfile,copy_file_range,fallocate"
@@ -257,6 +262,11 @@ func runScenario(base string, sc scenario, bin string) (res scenResult) {
 		// every return of that call is held for 40 ms: time for the watcher below to land the SIGKILL exactly there
 		args = append(args, "-e", "inject="+call+":delay_exit=40000")
 	}
+	probe := sc.Probe && o.WorkDir && sc.Stop != "inject"
+	if probe {
+		args[len(args)-1] += "," + probeSet
+		args = append(args, "-e", "inject="+probeSet+":delay_exit=30000")
+	}
 	toolArgs := []string{bin,
 		"-nsqd-tcp-address", n.RealTCPAddr().String(), "-topic", topicName, "-channel", channel,
 		"-output-dir", out, "-host-identifier", "h", "-datetime-format", o.DateFmt,
@@ -335,6 +345,11 @@ func runScenario(base string, sc scenario, bin string) (res scenResult) {
 	defer close(stopWatch)
 	if killClass != "" {
 		go watchAndKill(slog, killClass, killK, []string{out, work}, tool, fired, stopWatch)
+	}
+	var probeMu sync.Mutex
+	probed := map[string][]byte{}
+	if probe {
+		go watchProbes(slog, out, o.Gzip, sc.Seed, &probeMu, probed, stopWatch)
 	}
 
 	// timeline
@@ -632,6 +647,13 @@ func runScenario(base string, sc scenario, bin string) (res scenResult) {
 			What:     fmt.Sprintf("%d message(s) nsqd no longer owes are not in any readable output file after stop=%s (first: message %d id %s)", len(missing), sc.Stop, missing[0], ids[missing[0]]),
 			Scenario: sc, Detail: map[string]interface{}{"missing": missing, "owed": len(owed), "published": sc.NMsgs}})
 	}
+	probeMu.Lock()
+	for p, c := range probed {
+		preContent[p] = c
+		foreignPaths = append(foreignPaths, p)
+	}
+	probeMu.Unlock()
+	sort.Strings(foreignPaths)
 	for _, p := range append(append([]string(nil), prePaths...), foreignPaths...) {
 		c := preContent[p]
 		kept := false
@@ -807,6 +829,81 @@ func watchAndKill(path, class string, k int, dirs []string, pid int, fired chan<
 				fired <- true
 				f.Close()
 				return
+			}
+		}
+	}
+}
+
+// watchProbes tails the strace log: whenever the tool has just learnt that a name in the output directory is free (a
+// stat / access call answered ENOENT; strace holds the tool in delay_exit), somebody else takes that name.  Code that
+// hands its file over with link(2) never asks first and is unaffected; code that asks and then renames is caught
+// between its two steps.
+func watchProbes(path, out string, gzipped bool, seed int64, mu *sync.Mutex, made map[string][]byte, stop <-chan struct{}) {
+	hexOut := hexOf(strings.TrimSuffix(out, "/") + "/")
+	rng := rand.New(rand.NewSource(seed ^ 0x5eed))
+	re := regexp.MustCompile(`"((?:\\x[0-9a-f]{2})+)"`)
+	var f *os.File
+	var buf []byte
+	tmp := make([]byte, 1<<16)
+	for {
+		select {
+		case <-stop:
+			if f != nil {
+				f.Close()
+			}
+			return
+		default:
+		}
+		if f == nil {
+			f, _ = os.Open(path)
+			if f == nil {
+				time.Sleep(time.Millisecond)
+				continue
+			}
+		}
+		n, _ := f.Read(tmp)
+		if n == 0 {
+			time.Sleep(500 * time.Microsecond)
+			continue
+		}
+		buf = append(buf, tmp[:n]...)
+		for {
+			i := bytes.IndexByte(buf, '\n')
+			if i < 0 {
+				break
+			}
+			line := string(buf[:i])
+			buf = buf[i+1:]
+			if !strings.Contains(line, "ENOENT") || !strings.Contains(line, hexOut) {
+				continue
+			}
+			isProbe := false
+			for _, c := range strings.Split(probeSet, ",") {
+				if strings.Contains(line, " "+c+"(") {
+					isProbe = true
+				}
+			}
+			if !isProbe {
+				continue
+			}
+			for _, m := range re.FindAllStringSubmatch(line, -1) {
+				p := unhex(m[1])
+				if !strings.HasPrefix(p, strings.TrimSuffix(out, "/")+"/") || strings.HasSuffix(p, "/") {
+					continue
+				}
+				c := []byte(fmt.Sprintf("foreign:%s:%08x\n", filepath.Base(p), rng.Uint32()))
+				if gzipped {
+					c = gz(c)
+				}
+				fd, err := os.OpenFile(p, os.O_WRONLY|os.O_CREATE|os.O_EXCL, 0644)
+				if err != nil {
+					continue
+				}
+				fd.Write(c)
+				fd.Close()
+				mu.Lock()
+				made[p] = c
+				mu.Unlock()
 			}
 		}
 	}
